@@ -167,18 +167,18 @@ Theorem giso_spec dstar dzero done g1 g2 : gwf g1 -> gwf g2 ->
 Proof. intros W1 W2. apply is_isomorphic_spec; auto. Qed.
 
 (** (3) boolean subgraph test = definition of induced / monomorphic containment, with or without the filter *)
-Theorem sub_iso_spec uf ind names eattr child parent : gwf child -> gwf parent ->
-  (sub_iso vf2b uf ind names eattr child parent = true <-> contained ind (nm_sub names) (em_sub eattr) parent child).
+Theorem sub_iso_spec uf ind nc ec names eattr child parent : gwf child -> gwf parent ->
+  (sub_iso vf2b uf ind nc ec names eattr child parent = true <-> contained ind (nm_subc nc names) (em_subc ec eattr) parent child).
 Proof.
-  intros WC WP. unfold sub_iso. destruct (uf && negb (sub_filter names eattr child parent)) eqn:T.
+  intros WC WP. unfold sub_iso. destruct (uf && negb (sub_filter nc ec names eattr child parent)) eqn:T.
   - split; [discriminate|]. intros C. apply andb_true_iff in T. destruct T as (_ & T).
-    rewrite (sub_filter_necessary ind names eattr child parent WC WP C) in T. discriminate.
+    rewrite (sub_filter_necessary ind nc ec names eattr child parent WC WP C) in T. discriminate.
   - apply VB; auto.
 Qed.
 
 (** (5, subgraph test) *)
-Theorem sub_iso_filter_transparent ind names eattr child parent : gwf child -> gwf parent ->
-  sub_iso vf2b true ind names eattr child parent = sub_iso vf2b false ind names eattr child parent.
+Theorem sub_iso_filter_transparent ind nc ec names eattr child parent : gwf child -> gwf parent ->
+  sub_iso vf2b true ind nc ec names eattr child parent = sub_iso vf2b false ind nc ec names eattr child parent.
 Proof. intros WC WP. apply bool_iff. rewrite !sub_iso_spec; auto. tauto. Qed.
 
 (** (4) embeddings *)
